@@ -74,9 +74,16 @@ def bits_rule(ctx, P='C28-BITS'):
                 adds.append((a, a.value.right))
         for a, e in adds:
             nb += 1
-            srcs = [e]
-            if isinstance(e, ast.Name):
-                srcs = [x.value for x in stmts if isinstance(x, ast.Assign) and any(dotted(t) == e.id for t in x.targets)]
+            # follow local names back to what they were given (`bits = obj._bits_; ... bits[attr]`, `bit = obj._bits_[attr]`), three levels
+            srcs = [e]; seen = set(); frontier = [e]
+            for _ in range(3):
+                nxt = []
+                for v in frontier:
+                    for nm in [x.id for x in ast.walk(v) if isinstance(x, ast.Name) and isinstance(x.ctx, ast.Load)]:
+                        if nm in seen: continue
+                        seen.add(nm)
+                        nxt += [x.value for x in stmts if isinstance(x, ast.Assign) and any(dotted(t) == nm for t in x.targets)]
+                srcs += nxt; frontier = nxt
             tabs = {y.attr for v in srcs for y in ast.walk(v) if isinstance(y, ast.Attribute) and y.attr.startswith('_bits') or isinstance(y, ast.Attribute) and y.attr.startswith('_all_bits')}
             ok = bool(srcs) and tabs == {'_bits_'}
             ctx.ob(P + '.write-bit-taken-from-the-full-bit-table', fn, a, ok,
@@ -253,19 +260,27 @@ def run(ctx):
         f = repo.fn(P, qual)
         g = cg.cfg(f)
         objp = f.params[2] if len(f.params) > 2 else 'obj'
-        guards_ok = {t.id for t in g.nodes if t.kind == 'test' and (
-            ('%s is None' % objp) in norm(t.ast) or 'isinstance(val, TrackedValue)' in norm(t.ast)
-            or norm(t.ast).startswith('isinstance(dbval, (int, bool, float, type(None)))'))}
-        unguarded = g.reach([g.entry], edge_ok=lambda x, y, lab: not (x in guards_ok and lab == 'T'))
-        for rn in [x for x in g.nodes if x.kind == 'stmt' and isinstance(x.ast, ast.Return)]:
-            n += 1
-            v = rn.ast.value
-            tracked = isinstance(v, ast.Call) and dotted(v.func) in ('TrackedValue.make', 'TrackedArray', 'TrackedList', 'TrackedDict') \
-                and v.args and dotted(v.args[0]) == objp
-            ok = tracked or rn.id not in unguarded
-            ctx.ob('C28-CONV.returns-tracked-when-owner-given', f, rn.ast, ok,
-                   '' if ok else 'returns an untracked value although an owner object may be given', node=rn.ast)
-    ctx.floor('C28-CONV', n, 9, 'return statements in Json/Array converters')
+        valp = f.params[1]
+        # scenario: an owner is given (and the converter belongs to an attribute), the incoming value is a container that is not tracked yet
+        # (no scalar, not NULL): every path to a normal return passes the wrapping call for this owner
+        from ..typestate import scenario_edges
+        recv = f.params[0]
+        def cv_atom(text, node, objp=objp, valp=valp, recv=recv):
+            if text in (objp + ' is None', recv + '.attr is None', valp + ' is None'): return False
+            if text in (objp + ' is not None', recv + '.attr is not None', valp + ' is not None'): return True
+            if isinstance(node, ast.Call) and dotted(node.func) == 'isinstance' and len(node.args) == 2 and dotted(node.args[0]) == valp:
+                what = norm(node.args[1])
+                if 'TrackedValue' in what: return False            # not tracked yet
+                if what.startswith('(') and 'int' in what: return False          # not a scalar
+            return None
+        eo = scenario_edges(g, f.node, cv_atom, resolve=False)
+        wraps = [x for x in g.nodes if x.kind == 'stmt' and x.ast is not None and any(
+            dotted(c.func) in ('TrackedValue.make', 'TrackedArray', 'TrackedList', 'TrackedDict') and c.args and dotted(c.args[0]) == objp for c in x.calls())]
+        n += 1
+        ok = bool(wraps) and g.must_pass_after(g.entry, wraps, exits=[g.exit], edge_ok=eo)
+        ctx.ob('C28-CONV.returns-tracked-when-owner-given', f, wraps[0].ast if wraps else f.node, ok,
+               '' if ok else '%s can return an untracked container although an owner object is given: in-place changes of it are lost' % qual)
+    ctx.floor('C28-CONV', n, 4, 'Json/Array converter functions that hand values to an owner')
     # ---------------------------------------------------------------- OWNERARG
     nown = 0
     for fn in ctx.repo.rule_funcs():
